@@ -239,7 +239,9 @@ class ChainManager(Manager):
 
     def get_state(self) -> Tuple[CoinState, List[Transaction]]:
         with self.lock:
-            return self.coinstate, self.transaction_pool
+            # the pool is handed out as a copy: the caller (the miner's thread) reads it more than once while the
+            # networking thread goes on appending to and replacing the pool itself.
+            return self.coinstate, list(self.transaction_pool)
 
     def _cleanup_transaction_pool_for_coinstate(self, coinstate: CoinState) -> None:
         # This is really the simplest (though not most efficient mechanism): simply remove now-invalid transactions from
